@@ -242,3 +242,26 @@ Proof.
   intros t Hwf Hn bs loc Hb. destruct (needs_clamp_complete_g wadd t Hwf Hn bs loc Hb) as [v Hv].
   exists v. split; auto. exact (dec_sound_g wadd t bs Hwf Hb loc v Hv).
 Qed.
+
+(* ---------- arguments at an arbitrary base (constructor: base = length of the init code) ---------- *)
+Theorem dec_sound_at : forall base targs data v,
+  wf_ty targs = true -> bytes_ok data -> accept_at base targs data = Some v -> in_type targs v = true.
+Proof.
+  intros base t cd v Hwf Hb. unfold accept_at. destruct (zlen cd <? base + static_size t); [discriminate|].
+  apply (dec_sound_g wadd t cd Hwf Hb base v).
+Qed.
+
+Theorem dec_complete_at : forall targs v pre,
+  wf_ty targs = true -> in_type targs v = true -> zlen pre + zlen (enc targs v) < W256 ->
+  accept_at (zlen pre) targs (pre ++ enc targs v) = Some v.
+Proof.
+  intros t v pre Hwf Hin Hs. unfold accept_at.
+  pose proof (static_size_le_enc t v Hwf Hin). rewrite zlen_app.
+  destruct (Z.ltb_spec (zlen pre + zlen (enc t v)) (zlen pre + static_size t)); [lia|].
+  apply dec_follow_enc; auto. rewrite zlen_app. lia.
+  exists pre, []. split; [now rewrite app_nil_r | reflexivity].
+Qed.
+
+Theorem truncated_rejected_at : forall base targs data,
+  zlen data < base + static_size targs -> accept_at base targs data = None.
+Proof. intros. unfold accept_at. destruct (Z.ltb_spec (zlen data) (base + static_size targs)); [reflexivity | lia]. Qed.
